@@ -231,16 +231,34 @@ class C18:
                     ctx.ok("R18.2", site, "write: relative_to error propagates (no enclosing handler)")
                 # R18.4: Path.relative_to is a lexical prefix test -- audio_dir/../private/x.wav passes it although the recording
                 # lies outside the directory.  Some rejection on this path must look at `..` in the (normalised) relative path.
-                rel_terms = {given} | {x for e in s.events for x in walk(e.term) if x[0] == "call" and x[1][0] == "attr" and x[1][2] == "relative_to"}
+                def mentions_rel(t):
+                    return any(x[0] == "call" and x[1][0] == "attr" and x[1][2] == "relative_to" for x in walk(t))
+
+                def mentions_pardir(t, depth=0):
+                    for x in walk(t):
+                        if x[0] == "const" and isinstance(x[1], str) and x[1].startswith(".."):
+                            return True
+                        # a helper predicate applied to the relative path (a loop with early returns is not inlined): look inside
+                        if depth < 2 and x[0] == "call" and x[1][0] == "global" and x[1][2] == "func" and ":" in x[1][1] and any(mentions_rel(a) for a in x[2]):
+                            try:
+                                hs = ctx.summ.of_func(*x[1][1].split(":"))
+                            except Exception:  # noqa: BLE001
+                                continue
+                            if any(mentions_pardir(t2, depth + 1) for e2 in hs.events for t2 in (e2.live, e2.term)):
+                                return True
+                    return False
+
                 guard = None
                 for r in s.raises:
-                    conds = [c for c in conjuncts(r.live)]
-                    if any(self._dir_given(c) == 1 for c in conds) or True:
-                        for c in conds:
-                            ws = list(walk(c))
-                            if any(x == ("const", "..") or (x[0] == "const" and isinstance(x[1], str) and x[1].startswith("..")) for x in ws) \
-                                    and any(x in rel_terms for x in ws):
-                                guard = r
+                    loops_ = [s.loops[l] for l in r.loops if l in s.loops]
+                    scope = [r.live] + [L_.iter for L_ in loops_]
+                    # conditions may refer to loop-carried values (a depth counter over the parts): look at what the loops iterate
+                    if any(mentions_pardir(t) for t in scope) and any(mentions_rel(t) for t in scope):
+                        guard = r
+                    elif any(mentions_pardir(t) for t in scope) and any(mentions_rel(e.term) for e in s.events if e.idx < r.idx):
+                        # the relative path went through a local name the condition reads indirectly (loop over its parts)
+                        if any(mentions_rel(L_.iter) or any(mentions_rel(x) for x in walk(L_.iter)) for L_ in s.loops.values()):
+                            guard = r
                 if guard is not None:
                     ctx.ok("R18.4", f"{file}:{guard.lineno} {func}", "write: a relative path that climbs out of the directory (`..`) is rejected")
                 else:
@@ -265,26 +283,48 @@ class C18:
         goes through the locale's preferred encoding -- under a non-UTF-8 locale saving a non-ASCII path raises UnicodeEncodeError
         after the target was opened (leaving an empty file) and a UTF-8 document cannot be loaded."""
         ctx = self.ctx
+        def utf8(t):
+            return t is not None and t[0] == "const" and isinstance(t[1], str) and t[1].lower().replace("_", "-") in ("utf-8", "utf8")
+
         for fn in ("save", "load"):
             s = ctx.summ.of_func(AOEF_PKG, fn)
             file = s.module.relpath
-            ios = [e for e in s.calls if (e.term[1][0] == "attr" and e.term[1][2] in ("write_text", "read_text")) or e.term[1] == ("builtin", "open")]
+            ios = []
+            for e in s.calls:
+                f = e.term[1]
+                if f == ("builtin", "open") or (f[0] == "attr" and f[2] in ("open", "read_text", "write_text", "read_bytes", "write_bytes")):
+                    ios.append(e)
             if not ios:
-                ctx.undec("R18.5", f"{file}:{s.node.lineno} {fn}", "no text read / write call found")
+                ctx.undec("R18.5", f"{file}:{s.node.lineno} {fn}", "no file read / write call found")
                 continue
+            codecs = [e for e in s.calls if e.term[1][0] == "attr" and e.term[1][2] in ("encode", "decode")]
             for e in ios:
-                enc = callkw(e.term).get("encoding")
-                if e.term[1] == ("builtin", "open") and any(a == ("const", "rb") or a == ("const", "wb") for a in e.term[2]):
-                    ctx.ok("R18.5", f"{file}:{e.lineno} {fn}", "binary I/O")
-                elif enc is not None and enc[0] == "const" and isinstance(enc[1], str) and enc[1].lower().replace("_", "-") in ("utf-8", "utf8"):
-                    ctx.ok("R18.5", f"{file}:{e.lineno} {fn}", "text I/O with encoding='utf-8'")
+                f = e.term[1]
+                kw = callkw(e.term)
+                name = "open" if f == ("builtin", "open") else f[2]
+                mode = kw.get("mode")
+                if mode is None:
+                    pos = e.term[2]
+                    mode = pos[1] if (f == ("builtin", "open") and len(pos) > 1) else (pos[0] if (f != ("builtin", "open") and name == "open" and pos) else None)
+                binary = name in ("read_bytes", "write_bytes") or (mode is not None and mode[0] == "const" and isinstance(mode[1], str) and "b" in mode[1])
+                site5 = f"{file}:{e.lineno} {fn}"
+                if binary:
+                    cod = [c for c in codecs if (c.term[2] and not utf8(c.term[2][0])) or (callkw(c.term).get("encoding") is not None and not utf8(callkw(c.term).get("encoding")))]
+                    if codecs and not cod:
+                        ctx.ok("R18.5", site5, f"binary I/O ({name}) with the text encoded / decoded as UTF-8")
+                    elif cod:
+                        ctx.bad("R18.5", file, fn, f"{show(cod[0].term)[-50:]}", f"io.aoef.{fn} converts the document with `{show(cod[0].term)[-60:]}`, not UTF-8", cod[0].lineno)
+                    else:
+                        ctx.undec("R18.5", site5, f"binary I/O ({name}) without a visible encode / decode step")
+                elif utf8(kw.get("encoding")):
+                    ctx.ok("R18.5", site5, f"text I/O ({name}) with encoding='utf-8'")
                 else:
-                    ctx.bad("R18.5", file, fn, f"{show(e.term[1])[-40:]}(...) without encoding",
-                            f"io.aoef.{fn} {'writes' if fn == 'save' else 'reads'} the document with `{e.term[1][2] if e.term[1][0] == 'attr' else 'open'}` and no "
-                            f"explicit encoding: the text goes through the locale's preferred encoding, so under a non-UTF-8 locale a recording "
-                            f"path with a non-ASCII name cannot be saved (UnicodeEncodeError after the target was truncated) and a UTF-8 "
-                            f"document cannot be loaded -- the stored path then depends on the process environment, not on the recording",
-                            e.lineno, witness={"environment": "LC_ALL=C PYTHONUTF8=0", "file name": "café/文件.wav"})
+                    ctx.bad("R18.5", file, fn, f"{name}(...) without encoding",
+                            f"io.aoef.{fn} {'writes' if fn == 'save' else 'reads'} the document with `{name}` and no explicit UTF-8 encoding "
+                            f"(encoding={show(kw.get('encoding', NONE))}): the text goes through the locale's preferred encoding, so under a "
+                            f"non-UTF-8 locale a recording path with a non-ASCII name cannot be saved (UnicodeEncodeError after the target was "
+                            f"truncated) and a UTF-8 document cannot be loaded -- the stored path then depends on the process environment, "
+                            f"not on the recording", e.lineno, witness={"environment": "LC_ALL=C PYTHONUTF8=0", "file name": "café/文件.wav"})
 
     # -------------------------------------------------------------- R18.3
     def check_write_order(self):
